@@ -8,9 +8,10 @@ Helper lemmas for C20 (Props/C20.lean): the straight-line effect of every piece 
 import ChibiVerif.Model.Codegen
 import ChibiVerif.Model.Effect
 import ChibiVerif.Gen.CastTableGen
+import ChibiVerif.Model.C20Scope
 
 namespace ChibiVerif.Lemmas.C20
-open ChibiVerif ChibiVerif.Codegen ChibiVerif.Effect ChibiVerif.Asm ChibiVerif.Ast
+open ChibiVerif ChibiVerif.Codegen ChibiVerif.Effect ChibiVerif.Asm ChibiVerif.Ast ChibiVerif.C20Scope
 
 def Sem (m : M α) (r x d : Int) : Prop :=
   ∀ s a s' ls, m s = .ok (a, s', ls) → delta ls = some ⟨r, x⟩ ∧ s'.depth = s.depth + d
@@ -136,14 +137,6 @@ theorem Sem_regDx (sz : Int) : Sem (regDx sz) 0 0 0 := by
   repeat' split
   all_goals first | exact Sem_pure _ | exact Sem_fail _
 
-def isLD (t : Option Ty) : Bool :=
-  match t with
-  | some t => t.kind == .ldouble
-  | none => false
-
-/-- +1 for a long double, 0 for every other type -/
-def xOf (t : Option Ty) : Int := if isLD t then 1 else 0
-
 /-! ### `node->ty` of each constructor -/
 
 @[simp] theorem ty?_nullExpr : (Node.nullExpr i).ty? = i.ty := rfl
@@ -186,11 +179,6 @@ def xOf (t : Option Ty) : Int := if isLD t then 1 else 0
 theorem xOf_eq_of_isLD {a b : Option Ty} (h : isLD a = isLD b) : xOf a = xOf b := by simp [xOf, h]
 theorem xOf_zero {a : Option Ty} (h : isLD a = false) : xOf a = 0 := by simp [xOf, h]
 theorem xOf_one {a : Option Ty} (h : isLD a = true) : xOf a = 1 := by simp [xOf, h]
-
-/-- the comparison operators (their result is an `int`, whatever the operands are) -/
-def isCmp : BinOp → Bool
-  | .eq | .ne | .lt | .le => true
-  | _ => false
 
 theorem Sem_nullDeref (w : String) : Sem (nullDeref w : M α) r x d := Sem_fail _
 
